@@ -26,7 +26,8 @@ LEVEL = 'model_checking'
 # kind 'stale': a translator that both threads must invalidate (or one reuses, one invalidates) is cached
 # kind 'cold' : both threads start from empty caches and race to fill the same keys
 def _S(name, kind, prelude, *threads):
-    return dict(name=name, kind=kind, prelude=prelude, threads=list(threads))
+    return dict(name=name, kind=kind, prelude=prelude, threads=list(threads),
+                writes=any(step[0] == 'q_delete' for prog in threads for step in prog))
 
 SCENARIOS = [
     _S('slice-both-stale', 'stale', [['q_slice', 0, 2]], [['q_slice', 1, 3]], [['q_slice', 0, 3]]),
@@ -86,7 +87,7 @@ def execute(w, sc, choices, only=None):
     """fresh caches, fresh rows, prelude, then the scenario's threads (or only thread `only`) under
     the scheduler"""
     from vf.props import _c22_sched as S, _c22_world as W
-    W.reset(w)
+    W.reset(w, rows=sc.get('writes', False))
     run_prelude(w, sc['prelude'])
     progs = sc['threads'] if only is None else [sc['threads'][only]]
     bodies = [(lambda i, prog=prog: W.run_program(w, prog)) for prog in progs]
@@ -241,7 +242,7 @@ def matrix_op(w, op, mine, foreign):
     if op == 'kwargs-filter': return 'filter -> %r' % (sorted(p.id for p in P.select().filter(grp=fg)),)
     if op == 'get-by-foreign': return 'get -> %r' % (P.get(id=1, grp=fg),)
     if op == 'modify-foreign': fp.age = 98; return 'modified'
-    if op == 'flush-foreign': fp.flush(); return 'flushed'
+    if op == 'flush-foreign': foreign['person_modified'].flush(); return 'flushed an object modified by thread A'
     if op == 'foreign-collection-add': fg.people.add(mine['person']); return 'added'
     raise AssertionError(op)
 
@@ -275,6 +276,8 @@ def matrix_case(w, op):
                 foreign['person'] = w.Person[5]
                 foreign['grp'] = w.Grp[2]
                 foreign['grp_unloaded'] = w.Person[1].grp          # Grp[1]: known pk, attributes not loaded
+                foreign['person_modified'] = w.Person[4]
+                foreign['person_modified'].age = 50                # pending change of thread A
                 a_ready.set()
                 b_done.wait(60)
                 w.orm.rollback()
